@@ -2,12 +2,13 @@
 (* Sequential scenario generator for C17/MQTT: connection attempts, ends and takeovers one at a     *)
 (* time (each completes before the next starts), with the outcome the contract determines.  A        *)
 (* takeover while Cap slots are held is left to trace validation: the contract allows both outcomes.  *)
-EXTENDS MqttConnCap, Json
+EXTENDS MqttConnCap, Json, FiniteSets
 
 CONSTANT MaxStepsC
-VARIABLES out, k
+VARIABLES out, k,
+          sst     \* (parked schedules only) [ConnsC -> "new" | "started" | "finished" | "ended"]
 
-GInit == CInit /\ k = 0 /\ out = ToJson([a |-> "init", cap |-> Cap])
+GInit == CInit /\ k = 0 /\ out = ToJson([a |-> "init", cap |-> Cap]) /\ sst = [c \in ConnsC |-> "new"]
 GTry == \E c \in ConnsC :
           /\ st[c] = "new"
           /\ ~(IdOf[c] \in DOMAIN held /\ N >= Cap)
@@ -18,8 +19,26 @@ GEnd == \E c \in ConnsC :
           /\ st[c] = "up" /\ st' = [st EXCEPT ![c] = "gone"]
           /\ Release(c)
           /\ out' = ToJson([a |-> "end", c |-> c, n |-> Cardinality(DOMAIN held')])
-GNext == k < MaxStepsC /\ k' = k + 1 /\ (GTry \/ GEnd)
-GSpec == GInit /\ [][GNext]_<<cvars, out, k>>
+GNext == k < MaxStepsC /\ k' = k + 1 /\ (GTry \/ GEnd) /\ UNCHANGED sst
+GSpec == GInit /\ [][GNext]_<<cvars, out, k, sst>>
+
+(* ---- schedules with attempts parked between the early check and the registration ----            *)
+(* The Connect (authentication) pipeline of the harness is a gate: start(c) sends c's CONNECT and       *)
+(* returns when the attempt is parked in the pipeline (or was refused before it got there),               *)
+(* release(c) opens the gate and returns with the CONNACK, end(c) ends the connection if it was            *)
+(* accepted and returns when the broker has torn it down.  The outcome of an attempt is not predicted       *)
+(* here (a takeover at the cap may be refused or accepted): the harness logs inv / ret / close / gone /      *)
+(* sample events and MqttConnCap_Trace looks for a linearisation the contract allows.                        *)
+PInit == GInit
+PStart(c)   == /\ sst[c] = "new" /\ Cardinality({x \in ConnsC : sst[x] = "started"}) < 3
+               /\ sst' = [sst EXCEPT ![c] = "started"] /\ out' = ToJson([a |-> "start", c |-> c, id |-> IdOf[c]])
+PRelease(c) == sst[c] = "started" /\ sst' = [sst EXCEPT ![c] = "finished"] /\ out' = ToJson([a |-> "release", c |-> c])
+PEnd(c)     == sst[c] = "finished" /\ sst' = [sst EXCEPT ![c] = "ended"] /\ out' = ToJson([a |-> "end", c |-> c])
+PNext == /\ k < MaxStepsC /\ k' = k + 1 /\ UNCHANGED cvars
+         /\ \E c \in ConnsC : PStart(c) \/ PRelease(c) \/ PEnd(c)
+PSpec == PInit /\ [][PNext]_<<cvars, out, k, sst>>
+ParkConns == {"k1", "k2", "k3", "k4", "k5", "k6"}
+ParkId == [c \in ParkConns |-> IF c \in {"k1", "k3", "k5"} THEN "a" ELSE IF c \in {"k2", "k6"} THEN "b" ELSE "c"]
 
 GenConns == {"k1", "k2", "k3", "k4", "k5", "k6", "k7", "k8", "k9"}
 GenId == [c \in GenConns |-> IF c \in {"k1", "k5", "k8"} THEN "a" ELSE IF c \in {"k2", "k6"} THEN "b" ELSE IF c \in {"k3", "k7"} THEN "c"
